@@ -10,6 +10,7 @@
 #define VG_CANARY(name) __CPROVER_assert(0, "VG_CANARY " name)
 
 unsigned char  nondet_uchar(void);
+char           nondet_char(void);
 unsigned short nondet_ushort(void);
 unsigned int   nondet_uint(void);
 int            nondet_int(void);
